@@ -14,6 +14,7 @@ import (
 	"hash/fnv"
 	"os"
 	"path/filepath"
+	"runtime/debug"
 	"sort"
 	"strconv"
 	"strings"
@@ -263,6 +264,11 @@ func Main(m *testing.M, meta Meta) {
 	SetMeta(meta)
 	// Safety net: a generated program (or the harness itself) that grows without bound must kill this one
 	// process, not the machine. Only the soft limit is set, child processes choose their own.
+	// ... and a memory limit for the Go runtime, which is what grol's own allocation guard measures against: generated
+	// programs that double a string in a loop are refused by it instead of filling the address space.
+	if os.Getenv("GOMEMLIMIT") == "" {
+		debug.SetMemoryLimit(2 << 30)
+	}
 	var rl syscall.Rlimit
 	if syscall.Getrlimit(syscall.RLIMIT_AS, &rl) == nil && (rl.Cur == ^uint64(0) || rl.Cur > 10<<30) {
 		rl.Cur = 10 << 30
